@@ -237,8 +237,18 @@ def is_zero_value(v):
     v = sp.sympify(v)
     if v == 0:
         return True
-    if v.is_Rational or (v.is_number and v.as_real_imag()[0].is_Rational and v.as_real_imag()[1].is_Rational):
+    if v.is_Rational:
         return False
+    if v.is_number:
+        try:
+            v2 = sp.expand(v)
+            if v2 == 0:
+                return True
+            re_, im_ = v2.as_real_imag()
+            if re_.is_Rational and im_.is_Rational:
+                return bool(re_ == 0 and im_ == 0)
+        except Exception:
+            pass
     try:
         if sp.simplify(v) == 0:
             return True
@@ -265,49 +275,82 @@ class Verdict:
         return self.equal is True
 
 
+class _Timeout(Exception):
+    pass
+
+
+class time_limit:
+    """SIGALRM based wall-clock limit for sympy calls that may not terminate in reasonable time."""
+    def __init__(self, seconds):
+        self.seconds = seconds
+
+    def __enter__(self):
+        import signal
+        self._old = signal.signal(signal.SIGALRM, self._raise)
+        signal.setitimer(signal.ITIMER_REAL, self.seconds)
+
+    def __exit__(self, *a):
+        import signal
+        signal.setitimer(signal.ITIMER_REAL, 0)
+        signal.signal(signal.SIGALRM, self._old)
+        return False
+
+    @staticmethod
+    def _raise(signum, frame):
+        raise _Timeout()
+
+
+SYMBOLIC_BUDGET_S = 4.0
+
+
 def equal(a, b, seed=0, points=6, constraints=None, assume=None):
-    """-> Verdict(equal=True/False/None).  `assume`: dict of substitutions applied to both first."""
+    """-> Verdict(equal=True/False/None).
+
+    Order: syntactic identity; exact evaluation at random rational points (any non-zero value is a
+    definite contradiction and the point is the witness); if every point gives exactly zero, a symbolic
+    normal-form proof is attempted under a time budget; if that does not finish, agreement at all points is
+    reported as such."""
     a, b = sp.sympify(a), sp.sympify(b)
     if assume:
         a, b = a.subs(assume), b.subs(assume)
     if a == b:
         return Verdict(True, "syntactic")
-    diff = a - b
-    symbolic = None
-    try:
-        d1 = sp.expand(diff)
-        if d1 == 0:
-            return Verdict(True, "expand")
-        if not diff.has(sp.Piecewise, sp.floor, sp.ceiling, sp.Min, sp.Max, sp.Mod) and sp.count_ops(diff) < 400:
-            d2 = sp.simplify(diff)
-            if d2 == 0:
-                return Verdict(True, "simplify")
-            d3 = sp.simplify(sp.expand(diff, complex=True))
-            if d3 == 0:
-                return Verdict(True, "simplify-complex")
-    except Exception as e:  # sympy can choke on exotic terms; fall through to evaluation
-        symbolic = str(e)
     rng = random.Random(seed * 7919 + 17)
     syms = (a.free_symbols | b.free_symbols)
-    nz = 0
-    bad = None
+    nz, bad = 0, None
     for k in range(points):
         pt = sample_point(syms, rng, constraints)
         try:
             va = evaluate(a, salt=k, env=pt)
             vb = evaluate(b, salt=k, env=pt)
             z = is_zero_value(va - vb)
-        except Exception as e:
-            z = None
-            bad = str(e)
+        except (ZeroDivisionError, ValueError, _Timeout) as e:
+            z, bad = None, f"{type(e).__name__}: {e}"
+        except Exception as e:   # sympy internals
+            z, bad = None, f"{type(e).__name__}: {e}"
         if z is False:
-            return Verdict(False, "witness", witness={str(s): str(v) for s, v in pt.items()},
+            return Verdict(False, "witness", witness={str(s_): str(v) for s_, v in pt.items()},
                            diff=str(sp.N(va - vb, 12)))
         if z is True:
             nz += 1
+    diff = a - b
+    if sp.count_ops(diff) < 600:
+        try:
+            with time_limit(SYMBOLIC_BUDGET_S):
+                if sp.expand(diff) == 0:
+                    return Verdict(True, "expand")
+                if not diff.has(sp.Piecewise, sp.floor, sp.ceiling, sp.Min, sp.Max, sp.Mod):
+                    if sp.simplify(diff) == 0:
+                        return Verdict(True, "simplify")
+                    if sp.simplify(sp.expand(diff, complex=True)) == 0:
+                        return Verdict(True, "simplify-complex")
+        except _Timeout:
+            pass
+        except Exception:
+            pass
     if nz == points and points >= 3:
         return Verdict(True, f"exact-evaluation at {points} random rational points")
-    return Verdict(None, f"undecided ({nz}/{points} points zero; {bad or symbolic or ''})")
+    return Verdict(None, f"undecided ({nz}/{points} points evaluated to zero; {bad or ''})")
 
 
 def has_unit_symbols(e):
